@@ -48,6 +48,19 @@ def _cmp(a, b):
     return a[0] == b[0] and len(a[1]) == len(b[1]) and all(x == y for x, y in zip(a[1], b[1]))
 
 
+def _cmp_values(a, b):
+    """same structure, shapes and VALUES (python scalars that went through jit come back as 32-bit arrays: the dtype of
+    such leaves is not compared)."""
+    if a[0] != b[0] or len(a[1]) != len(b[1]):
+        return False
+    for (da, sa, ba), (db, sb, bb) in zip(a[1], b[1]):
+        if sa != sb:
+            return False
+        if not np.array_equal(np.frombuffer(ba, dtype=da).astype(np.float64), np.frombuffer(bb, dtype=db).astype(np.float64)):
+            return False
+    return True
+
+
 def _vals(res):
     total, terms = res
     return float(np.asarray(total).reshape(-1)[0]), {k: float(np.asarray(v).reshape(-1)[0]) for k, v in terms.items()}
@@ -197,11 +210,17 @@ def run_generator(case):
     g2, b2 = g.get_batch()
     if not (_cmp(snapshot(g1), snapshot(g2)) and _cmp(snapshot(b1), snapshot(b2))):
         return fail("repeated-get_batch-differs", {"kind": cfg["kind"]}, labels=labels)
-    gj, bj = jax.jit(lambda gg: gg.get_batch())(g)
-    if not _cmp(snapshot(b1), snapshot(bj)):
-        return fail("eager-vs-jit-batch-differs", {"kind": cfg["kind"]}, labels=labels)
-    if not _cmp(snapshot(g1), snapshot(gj)):
-        return fail("eager-vs-jit-generator-state-differs", {"kind": cfg["kind"]}, labels=labels)
+    if cfg["kind"] in ("obs", "param", "multi"):
+        # these loaders keep user tables as static (metadata) fields; jax compares metadata with == in its caches and
+        # refuses arrays there, so a stand-alone jit of their get_batch is not reliable in a long-lived process. Their
+        # jitted use is exercised through jinns.solve (C07, programs with observation / parameter generators).
+        labels.append("jit-skipped(static tables)")
+    else:
+        gj, bj = jax.jit(lambda gg: gg.get_batch())(g)
+        if not _cmp_values(snapshot(b1), snapshot(bj)):
+            return fail("eager-vs-jit-batch-differs", {"kind": cfg["kind"]}, labels=labels)
+        if not _cmp_values(snapshot(g1), snapshot(gj)):
+            return fail("eager-vs-jit-generator-state-differs", {"kind": cfg["kind"]}, labels=labels)
     if not _cmp(s0, snapshot(g)):
         return fail("get_batch-modified-the-generator", {"kind": cfg["kind"], "after": "jit"}, labels=labels)
     # the factor methods of the collocation generators are pure as well
@@ -238,7 +257,7 @@ def strat_generator():
         adv = draw(st.sampled_from([0, per_epoch - 1, per_epoch, 2 * per_epoch, draw(st.integers(0, 12))]))
         cfg = {"kind": kind, "n": n, "b": b, "key": draw(st.integers(0, 2**31 - 1)), "advance": max(0, adv),
                "method": draw(st.sampled_from(["uniform", "grid"])), "dim": draw(st.sampled_from([1, 2])),
-               "border": draw(st.booleans()), "fn": draw(st.integers(1, 4)), "cartesian": draw(st.booleans()),
+               "border": draw(st.booleans()), "fn": draw(st.integers(1, 8)), "cartesian": draw(st.booleans()),
                "nt": draw(st.integers(1, 6))}
         cfg["bb"] = draw(st.integers(1, cfg["fn"]))
         cfg["bt"] = draw(st.integers(1, cfg["nt"]))
@@ -260,5 +279,9 @@ def subchecks():
         SubCheck(name="get_batch_purity", mode="given", strategy=strat_generator, run_case=run_generator,
                  counts={"quick": 96, "thorough": 2000}, shards={"quick": 4, "thorough": 16}, clear_every=20,
                  min_nontrivial_frac=0.25,
-                 doc="get_batch() leaves the generator untouched, is repeatable, and agrees exactly eagerly / under jit"),
+                 doc="get_batch() leaves the generator untouched, is repeatable, and agrees exactly eagerly / under jit (x64)"),
+        SubCheck(name="get_batch_purity_f32", mode="given", strategy=strat_generator, run_case=run_generator, x64=False,
+                 counts={"quick": 96, "thorough": 2000}, shards={"quick": 4, "thorough": 16}, clear_every=20,
+                 min_nontrivial_frac=0.25,
+                 doc="same in the library's default precision (32-bit counters and indices under jit)"),
     ]
